@@ -8,6 +8,7 @@ import RactorModel.Lemmas.PgConcHold
 import RactorModel.Lemmas.PgConcText
 import RactorModel.Lemmas.PgConcRead
 import RactorModel.Lemmas.PgConcLeaveStep
+import RactorModel.Model.PgText
 
 /-!
 # C11 — process groups reflect live membership and tell their monitors
@@ -1025,6 +1026,22 @@ example :
     let st := markDead (run init [.join 1 5 [1]]) 1
     get (removeEmptyRel (Conc.leaveRelOne st (1, 5) 1).rel 1) 1 = none ∧
     get (Conc.leaveRelOne { st with rel := removeEmptyRel st.rel 1 } (1, 5) 1).rel 1 = some ⟨[], [], []⟩ := by decide
+
+/-- the run-time text oracle (`Model/PgText.lean`, evaluated by the `lts` driver on the implementation's own
+snapshots) on the witness of the ineffective leave: the clause as written passes (the event goes to a monitor of
+that group and says nothing false, no effective change is missed); the STRICT reading (not wired into the driver)
+flags it; a missed scope monitor is flagged by the clause as written (sabotage 13) -/
+example :
+    let p := run init [.monitor 0 2, .join 1 0 [0]]
+    let q := (step p (.leave 1 0 [1])).1
+    q = p ∧ (step p (.leave 1 0 [1])).2 = [⟨2, false, 1, 0, [1]⟩] ∧
+    textNotifFailing p q [⟨2, false, 1, 0, [1]⟩] = [] ∧
+    textNotifStrictFailing p q [⟨2, false, 1, 0, [1]⟩] =
+      ["text-ineffective-change-notified", "text-payload-names-unchanged-actor"] ∧
+    (let p' := run init [.monitorScope 3 4, .join 3 0 [4]]
+     textNotifFailing p' (step p' (.leave 3 0 [4, 4])).1 [] =
+       ["text-effective-change-not-delivered-once-per-subscription"] ∧
+     textNotifFailing p' (step p' (.leave 3 0 [4, 4])).1 (step p' (.leave 3 0 [4, 4])).2 = []) := by decide
 
 end C11
 
